@@ -1,7 +1,437 @@
 //go:build verif
 
+// C11, free-running mode (only executed by the -race build, group c11r).
+//
+// Nothing is single-stepped here: the real EventPublisher.Run loop, 4 proposer goroutines whose
+// commands are serialised by one apply lock (what raft does for the FSM), real
+// submatview.LocalMaterializer.Run goroutines, a churn goroutine that reconnects / replaces clients and
+// ACL changes run concurrently. The behavioural check is made at quiescent points only: proposers
+// pause, a marker write per subject is committed, the monitor waits until everything committed has been
+// handed to the topic buffers and every client's view index has reached its marker, then view == store.
+// The race detector watches the whole run (reports are classified by the driver).
+// Part 2 runs FSM.Restore concurrently with new subscriptions.
 package c11
 
-import "testing"
+import (
+	"context"
+	"fmt"
+	"runtime"
+	"strings"
+	"sync"
+	"sync/atomic"
+	"testing"
+	"time"
 
-func freeRunning(t *testing.T) {}
+	"github.com/hashicorp/go-hclog"
+
+	"github.com/hashicorp/consul/agent/consul/stream"
+	"github.com/hashicorp/consul/agent/structs"
+	"github.com/hashicorp/consul/agent/submatview"
+	"github.com/hashicorp/consul/api"
+	"github.com/hashicorp/consul/zzverif/core"
+	"github.com/hashicorp/consul/zzverif/gen"
+)
+
+type freeSrv struct {
+	r       *replica
+	applyMu sync.Mutex // raft: one command at a time
+	idx     atomic.Uint64
+	writes  atomic.Int64
+}
+
+func (f *freeSrv) apply(data []byte) (uint64, any) {
+	f.applyMu.Lock()
+	defer f.applyMu.Unlock()
+	i := f.idx.Add(1)
+	f.writes.Add(1)
+	return i, f.r.applyBytes(i, data)
+}
+
+func (f *freeSrv) applyReq(t structs.MessageType, req any) (uint64, any) { return f.apply(fsmEnc(t, req)) }
+
+type freeClient struct {
+	id     int
+	subj   *subject
+	strict bool // compared at quiescent points (subjects without a known content defect)
+	token  string
+	mat    *submatview.LocalMaterializer
+	stop   context.CancelFunc
+	done   chan struct{}
+	subs   atomic.Int64
+}
+
+type countingBackend struct {
+	pub *stream.EventPublisher
+	c   *freeClient
+}
+
+func (b *countingBackend) Subscribe(req *stream.SubscribeRequest) (*stream.Subscription, error) {
+	b.c.subs.Add(1)
+	return b.pub.Subscribe(req)
+}
+
+func newFreeClient(id int, pub *stream.EventPublisher, sj *subject, strict bool, token string) *freeClient {
+	c := &freeClient{id: id, subj: sj, strict: strict, token: token}
+	c.mat = submatview.NewLocalMaterializer(submatview.LocalMaterializerDeps{
+		Backend:     &countingBackend{pub: pub, c: c},
+		ACLResolver: allowAll{},
+		Deps:        submatview.Deps{View: sj.newView(), Logger: hclog.NewNullLogger(), Request: sj.request(token)},
+	})
+	c.start()
+	return c
+}
+
+func (c *freeClient) start() {
+	ctx, cancel := context.WithCancel(context.Background())
+	c.stop = cancel
+	done := make(chan struct{})
+	c.done = done
+	go func() { c.mat.Run(ctx); close(done) }()
+}
+
+func (c *freeClient) halt() { c.stop(); <-c.done }
+
+// markers: one write per subject whose event lands at a known index on that subject
+func (f *freeSrv) markers(round int) map[string]uint64 {
+	out := map[string]uint64{}
+	chk := func(node, svcID, svcName string) structs.HealthChecks {
+		return structs.HealthChecks{{Node: node, CheckID: "marker", Name: "marker", Status: api.HealthPassing, Output: fmt.Sprint(round), ServiceID: svcID, ServiceName: svcName}}
+	}
+	i, _ := f.applyReq(structs.RegisterRequestType, &structs.RegisterRequest{Datacenter: "dc1", Node: "n1", Address: "10.0.0.1", ID: gen.NodeIDs[0],
+		Service: &structs.NodeService{ID: "web", Service: "web", Port: 8000}, Checks: chk("n1", "web", "web")})
+	out["health:web"] = i
+	i, _ = f.applyReq(structs.RegisterRequestType, &structs.RegisterRequest{Datacenter: "dc1", Node: "n1", Address: "10.0.0.1", ID: gen.NodeIDs[0],
+		Service: &structs.NodeService{ID: "db", Service: "db", Port: 8000}, Checks: chk("n1", "db", "db")})
+	out["health:db"] = i
+	i, _ = f.applyReq(structs.RegisterRequestType, &structs.RegisterRequest{Datacenter: "dc1", Node: "n2", Address: "10.0.0.2", ID: gen.NodeIDs[1],
+		Service: &structs.NodeService{Kind: structs.ServiceKindConnectProxy, ID: "web-sidecar-proxy", Service: "web-sidecar-proxy", Port: 8001,
+			Proxy: structs.ConnectProxyConfig{DestinationServiceName: "web", DestinationServiceID: "web"}}, Checks: chk("n2", "web-sidecar-proxy", "web-sidecar-proxy")})
+	out["connect:web"] = i
+	i, _ = f.applyReq(structs.RegisterRequestType, &structs.RegisterRequest{Datacenter: "dc1", Node: "n1x", Address: "10.0.0.4", PeerName: "peerA",
+		Service: &structs.NodeService{ID: "web", Service: "web", Port: 8000, PeerName: "peerA"},
+		Checks: structs.HealthChecks{{Node: "n1x", CheckID: "marker", Name: "marker", Status: api.HealthPassing, Output: fmt.Sprint(round), ServiceID: "web", ServiceName: "web", PeerName: "peerA"}}})
+	out["health:web@peerA"] = i
+	res := &structs.ServiceResolverConfigEntry{Kind: structs.ServiceResolver, Name: "web", ConnectTimeout: time.Duration(round+1) * time.Second}
+	_ = res.Normalize()
+	i, _ = f.applyReq(structs.ConfigEntryRequestType, &structs.ConfigEntryRequest{Datacenter: "dc1", Op: structs.ConfigEntryUpsert, Entry: res})
+	out["resolver:web"], out["resolver:*"] = i, i
+	def := &structs.ServiceConfigEntry{Kind: structs.ServiceDefaults, Name: "web", Protocol: "http", Meta: map[string]string{"round": fmt.Sprint(round)}}
+	_ = def.Normalize()
+	i, _ = f.applyReq(structs.ConfigEntryRequestType, &structs.ConfigEntryRequest{Datacenter: "dc1", Op: structs.ConfigEntryUpsert, Entry: def})
+	out["defaults:web"] = i
+	i, _ = f.applyReq(structs.RegisterRequestType, &structs.RegisterRequest{Datacenter: "dc1", Node: "n2", Address: "10.0.0.2", ID: gen.NodeIDs[1],
+		Service: &structs.NodeService{ID: fmt.Sprintf("marker-%d", round), Service: fmt.Sprintf("marker-%d", round), Port: 1}})
+	out["svclist:*"] = i
+	return out
+}
+
+// publishedBarrier returns when every batch committed so far has been appended to the topic buffers:
+// two more commits are queued behind them; once the queue is empty the publisher has taken the second,
+// hence finished the first and everything before it.
+func (f *freeSrv) publishedBarrier() bool {
+	for k := 0; k < 2; k++ {
+		f.applyReq(structs.KVSRequestType, &structs.KVSRequest{Datacenter: "dc1", Op: api.KVSet, DirEnt: structs.DirEntry{Key: "zv-barrier", Value: []byte{byte(k)}}})
+	}
+	dl := time.Now().Add(60 * time.Second)
+	for f.r.pub.VerifPending() > 0 {
+		if time.Now().After(dl) {
+			return false
+		}
+		runtime.Gosched()
+	}
+	return true
+}
+
+func freeRun(run *core.Run, rng *core.Rand, name string, rounds, opsPerProposer int) {
+	f := &freeSrv{r: newReplica(20 * time.Millisecond)}
+	f.idx.Store(3)
+	pctx, pcancel := context.WithCancel(context.Background())
+	defer pcancel()
+	go f.r.pub.Run(pctx)
+	subjs := allSubjects()
+	strict := map[string]bool{"health:web": true, "health:db": true, "health:web@peerA": true, "resolver:web": true, "resolver:*": true, "defaults:web": true}
+
+	// ACL prelude (same links as in the deterministic mode)
+	{
+		s := &sched{rng: rng}
+		rules := `service_prefix "" { policy = "read" }`
+		var pols structs.ACLPolicies
+		for i, id := range []string{polP1, polP2} {
+			p := &structs.ACLPolicy{ID: id, Name: fmt.Sprintf("zvp%d", i+1), Rules: rules}
+			p.SetHash(true)
+			pols = append(pols, p)
+		}
+		f.applyReq(structs.ACLPolicySetRequestType, &structs.ACLPolicyBatchSetRequest{Policies: pols})
+		role := &structs.ACLRole{ID: roleR1, Name: "zvr1", Policies: []structs.ACLRolePolicyLink{{ID: polP2}}}
+		role.SetHash(true)
+		f.applyReq(structs.ACLRoleSetRequestType, &structs.ACLRoleBatchSetRequest{Roles: structs.ACLRoles{role}})
+		f.applyReq(structs.ACLTokenSetRequestType, &structs.ACLTokenBatchSetRequest{Tokens: structs.ACLTokens{s.token("a"), s.token("b")}})
+	}
+
+	var cmu sync.Mutex
+	var clients []*freeClient
+	nextID := 0
+	addClient := func(r *core.Rand) {
+		sj := core.Pick(r, subjs)
+		cmu.Lock()
+		nextID++
+		c := newFreeClient(nextID, f.r.pub, sj, strict[sj.Name], core.Pick(r, tokensOfClients))
+		clients = append(clients, c)
+		cmu.Unlock()
+		run.Count("free:clients")
+		run.Distinct("free-subject", sj.Name)
+	}
+	for i := 0; i < 10; i++ {
+		addClient(rng)
+	}
+
+	aclSeq := 1000
+	for round := 0; round < rounds; round++ {
+		core.Progress("C11", fmt.Sprintf("free run %s round %d", name, round))
+		var wg sync.WaitGroup
+		for p := 0; p < 4; p++ {
+			pr := rng.Fork(uint64(round*16 + p))
+			wg.Add(1)
+			go func() {
+				defer wg.Done()
+				g := gen.New(pr.Fork(1), weights())
+				for k := 0; k < opsPerProposer; k++ {
+					var c gen.Cmd
+					for {
+						if c = g.Next(f.r.fsm.State(), f.idx.Load()+1); acceptable(c) {
+							break
+						}
+					}
+					f.apply(c.Bytes)
+					run.Count("free:writes")
+				}
+			}()
+		}
+		// churn + ACL changes, concurrently with the writers
+		cr := rng.Fork(uint64(round*16 + 9))
+		wg.Add(1)
+		go func() {
+			defer wg.Done()
+			for k := 0; k < opsPerProposer/4+2; k++ {
+				switch cr.Intn(4) {
+				case 0:
+					cmu.Lock()
+					if len(clients) > 4 {
+						i := cr.Intn(len(clients))
+						c := clients[i]
+						clients = append(clients[:i], clients[i+1:]...)
+						cmu.Unlock()
+						c.halt()
+						run.Count("free:unsubscribes")
+					} else {
+						cmu.Unlock()
+					}
+				case 1:
+					cmu.Lock()
+					n := len(clients)
+					cmu.Unlock()
+					if n < 14 {
+						addClient(cr)
+					}
+				case 2:
+					cmu.Lock()
+					c := clients[cr.Intn(len(clients))]
+					cmu.Unlock()
+					c.halt()
+					c.start()
+					run.Count("free:reconnects")
+				default:
+					aclSeq++
+					which := core.Pick(cr, []string{"a", "b"})
+					s := &sched{rng: cr, aclSeq: aclSeq}
+					f.applyReq(structs.ACLTokenSetRequestType, &structs.ACLTokenBatchSetRequest{Tokens: structs.ACLTokens{s.token(which)}})
+					run.Count("free:acl-changes")
+				}
+				runtime.Gosched()
+			}
+		}()
+		wg.Wait()
+
+		// ---- quiescent point
+		marks := f.markers(round)
+		if !f.publishedBarrier() {
+			run.Inconclusive(fmt.Sprintf("free run %s round %d: the publisher did not take the queued batches within 60 s", name, round))
+			break
+		}
+		st := f.r.fsm.State()
+		cmu.Lock()
+		cs := append([]*freeClient(nil), clients...)
+		cmu.Unlock()
+		for _, c := range cs {
+			_, want := c.subj.direct(st)
+			ctx, cancel := context.WithTimeout(context.Background(), 60*time.Second)
+			var got string
+			var idx uint64
+			ok := false
+			for ctx.Err() == nil {
+				q, err := c.mat.Query(ctx, marks[c.subj.Name]-1)
+				if err != nil && ctx.Err() == nil {
+					// the materializer reports the error of a forced resubscribe to waiting queries; ask again
+					runtime.Gosched()
+					continue
+				}
+				idx, got = q.Index, c.subj.render(q.Value)
+				if idx >= marks[c.subj.Name] && (got == want || !c.strict) {
+					ok = true
+					break
+				}
+				time.Sleep(200 * time.Microsecond)
+			}
+			cancel()
+			run.Count("free:quiescent-comparisons")
+			if !c.strict {
+				if got != want {
+					run.Count("free:lenient-subject-differs")
+				}
+				continue
+			}
+			if !ok {
+				cls, detail := diffClass(want, got)
+				// bounded wait, not a proof: reported as undecided (the deterministic mode decides such cases)
+				run.Inconclusive(fmt.Sprintf("free run %s round %d: client %d (%s) did not reach view == store within 60 s of idleness (view index %d, marker %d): %s %s", name, round, c.id, c.subj.Name, idx, marks[c.subj.Name], cls, trunc(detail, 300)))
+			}
+		}
+		run.Count("free:rounds")
+	}
+	cmu.Lock()
+	for _, c := range clients {
+		c.halt()
+	}
+	cmu.Unlock()
+	run.Eval()
+	run.NonTrivial(core.Hash("free", name))
+}
+
+// restoreVsSubscribe: FSM.Restore (raft's goroutine) runs while clients open subscriptions.
+// Restore takes the FSM state lock and then, inside RefreshAllTopics, the publisher lock; Subscribe takes
+// the publisher lock and then, inside the snapshot handler (FSM.State()), the FSM state lock.
+func restoreVsSubscribe(run *core.Run, rng *core.Rand, restores int) {
+	f := &freeSrv{r: newReplica(0)}
+	f.idx.Store(3)
+	pctx, pcancel := context.WithCancel(context.Background())
+	go f.r.pub.Run(pctx)
+	f.markers(0)
+	snap := f.r.snapshotBytes()
+	var progress atomic.Int64
+	stop := make(chan struct{})
+	var wg sync.WaitGroup
+	subj := healthSubject("web", "", false)
+	for k := 0; k < 4; k++ {
+		wg.Add(1)
+		go func() {
+			defer wg.Done()
+			req := subj.request("")(0)
+			for {
+				select {
+				case <-stop:
+					return
+				default:
+				}
+				sreq := &stream.SubscribeRequest{Topic: req.Topic, Subject: stateSubject("web"), Token: ""}
+				sub, err := f.r.pub.Subscribe(sreq)
+				if err == nil {
+					sub.Unsubscribe()
+				}
+				progress.Add(1)
+			}
+		}()
+	}
+	done := make(chan struct{})
+	go func() {
+		defer close(done)
+		for i := 0; i < restores; i++ {
+			if err := f.r.restoreBytes(snap); err != nil {
+				panic(err)
+			}
+			progress.Add(1)
+			run.Count("free:concurrent-restores")
+		}
+	}()
+	// watchdog on PROGRESS (not on duration): no restore and no subscribe completes any more
+	last, idle := progress.Load(), 0
+	stuck := false
+loop:
+	for {
+		select {
+		case <-done:
+			break loop
+		case <-time.After(500 * time.Millisecond):
+		}
+		if p := progress.Load(); p == last {
+			idle++
+		} else {
+			last, idle = p, 0
+		}
+		if idle >= 40 { // 20 s without a single completed operation
+			stuck = true
+			break
+		}
+	}
+	if stuck {
+		buf := make([]byte, 4<<20)
+		buf = buf[:runtime.Stack(buf, true)]
+		dump := string(buf)
+		var restoreG, subG string
+		for _, g := range strings.Split(dump, "\n\n") {
+			if strings.Contains(g, "fsm.(*FSM).Restore") && strings.Contains(g, "RefreshAllTopics") && strings.Contains(g, "sync.(*RWMutex).Lock") {
+				restoreG = g
+			}
+			if strings.Contains(g, "stream.(*EventPublisher).Subscribe") && strings.Contains(g, "fsm.(*FSM).State") && strings.Contains(g, "RLock") {
+				subG = g
+			}
+		}
+		if restoreG != "" && subG != "" {
+			run.Violation("C11:restore:deadlock:restore-vs-subscribe-lock-order",
+				"FSM.Restore (holding the FSM state lock, waiting for the publisher lock in RefreshAllTopics) and EventPublisher.Subscribe (holding the publisher lock, waiting for the FSM state lock in the snapshot handler's FSM.State()) block each other for ever: no subscription is terminated or served any more and the FSM goroutine never returns",
+				map[string]any{"restore_goroutine": trunc(restoreG, 3000), "subscribe_goroutine": trunc(subG, 3000), "completed_operations": last})
+		} else {
+			run.Inconclusive("restore-vs-subscribe: no progress for 20 s, but the two blocked goroutines were not both found in the dump")
+		}
+		// the blocked goroutines stay behind; nothing else depends on them
+		close(stop)
+		pcancel()
+		return
+	}
+	close(stop)
+	wg.Wait()
+	pcancel()
+}
+
+func freeRunning(t *testing.T) {
+	run := core.NewRun("C11", "exploration",
+		"free-running (-race) executions: real EventPublisher.Run, 4 concurrent proposers serialised by one apply lock, 10-14 real LocalMaterializer clients over 8 subjects, concurrent churn (unsubscribe / new client / reconnect) and ACL token updates; per run R rounds of 4xN generated writes, after each round a quiescent point (marker write per subject, publication barrier, every client's view index >= its marker) at which view == direct store query for the subjects without a known content defect; then FSM.Restore concurrently with Subscribe. non-trivial = every completed run; the race detector's reports are classified by the driver")
+	run.Assume("FSM.Apply calls are serialised (raft's contract); proposers, publisher, clients, churn and queries are truly concurrent",
+		"a client that does not reach view == store within 60 s of an idle system is reported as undecided, not as a violation (bounded wait); the deterministic mode decides such cases")
+	gen.Services = []string{"web", "db", "web.v1"}
+	rng := core.NewRand(core.Seed())
+	nruns := core.N(8, 200)
+	rounds := core.N(5, 10)
+	ops := core.N(40, 50)
+	par := 4
+	var wg sync.WaitGroup
+	sem := make(chan struct{}, par)
+	for i := 0; i < nruns; i++ {
+		r := rng.Fork(uint64(i))
+		wg.Add(1)
+		sem <- struct{}{}
+		go func(i int) {
+			defer wg.Done()
+			defer func() { <-sem }()
+			freeRun(run, r, fmt.Sprintf("f%d", i), rounds, ops)
+		}(i)
+	}
+	wg.Wait()
+	restoreVsSubscribe(run, rng.Fork(999), core.N(300, 3000))
+	run.Floor("free:writes", nruns*rounds*4*ops)
+	run.Floor("free:rounds", nruns*rounds)
+	run.Floor("free:quiescent-comparisons", nruns*rounds*4)
+	run.FloorDistinct("free-subject", 8)
+	if run.Finish() == 1 {
+		t.Fail()
+	}
+}
